@@ -4,7 +4,11 @@
 # answer that the property theorems say must come out (property oracle on the real code).
 OPS = {
     "numenc": "corr", "numdec": "corr", "enc": "corr", "encinto": "corr", "dec": "corr",
-    "encspec": "oracle", "rtdec": "oracle", "rtenc": "oracle", "numlaws": "oracle", "cmplaws": "oracle", "containslaws": "oracle", "keyorder": "oracle", 
+    "encspec": "oracle", "rtdec": "oracle", "rtenc": "oracle",
+    # number ops: the model functions are proved equal to the mathematical definitions for every
+    # input (C18 theorems: codec round trip, order = order of exact values, views exact or absent),
+    # so the model's answer IS the specified answer and a disagreement is a property failure
+    "numcmp": "oracle", "numview": "oracle", "numlaws": "oracle", "cmplaws": "oracle", "containslaws": "oracle", "keyorder": "oracle", 
 }
 
 
